@@ -264,7 +264,7 @@ func (o *c01obs) Finish(ps *PState) bool { return o.cr.nontrivial() }
 func init() {
 	core.Register(&histProp{
 		base: base{id: "C01", level: "exploration",
-			rule: "seeded random parser histories (Write/ReadFrom with chunk plans/Parse with both flags/Shrink/Reset incl. aliasing paths) over boundary-biased small configurations of all 7 parsers and adversarial byte families; a fixed-seed directed corpus is included; a case is non-trivial iff it contains a block with a match parsed after a Shrink that discarded bytes or after a Reset; distinct = distinct concrete case (fingerprint of config+stream+ops)",
+			rule:        "seeded random parser histories (Write/ReadFrom with chunk plans/Parse with both flags/Shrink/Reset incl. aliasing paths) over boundary-biased small configurations of all 7 parsers and adversarial byte families; a fixed-seed directed corpus is included; a case is non-trivial iff it contains a block with a match parsed after a Shrink that discarded bytes or after a Reset; distinct = distinct concrete case (fingerprint of config+stream+ops)",
 			assumptions: []string{"the harness' byte-list expander and model of fed bytes are correct", "Write/ReadFrom counts are trusted for the model (C15 decides them)"},
 			mandatory:   []string{"blocks_with_match", "shrink_discarding", "blocks_with_match_after_shrink_or_reset", "matches_with_source_retained_across_shrink", "reset_mode2", "blocks_ntl"},
 			expected:    []string{"overlapping_matches", "reset_mode3", "matches_with_source_before_block"}},
@@ -349,7 +349,7 @@ func (o *c02obs) Finish(ps *PState) bool { return o.cr.blocksMatch > 0 }
 func init() {
 	core.Register(&histProp{
 		base: base{id: "C02", level: "exploration",
-			rule: "same history executor as C01 with WindowSize drawn smaller/equal/larger than BufferSize, ShrinkSize and BlockSize (incl. WindowSize 1 and MinMatchLen) and LZ-synthetic strings with repeats exactly at distance WindowSize-1/WindowSize/WindowSize+1; every sequence of every block is checked; non-trivial iff the history produced at least one block with a match; distinct = distinct concrete case",
+			rule:        "same history executor as C01 with WindowSize drawn smaller/equal/larger than BufferSize, ShrinkSize and BlockSize (incl. WindowSize 1 and MinMatchLen) and LZ-synthetic strings with repeats exactly at distance WindowSize-1/WindowSize/WindowSize+1; every sequence of every block is checked; non-trivial iff the history produced at least one block with a match; distinct = distinct concrete case",
 			assumptions: []string{"positions are tracked by the harness' model of the stream; WindowSize and minimum match length are taken from the explicit configuration fields (defaults via the library's SetDefaults)"},
 			mandatory:   []string{"sequences", "offset==WindowSize", "matchlen==minimum", "shrink_discarding", "offset==stream_position"},
 			expected:    []string{"offset==WindowSize-1", "matchlen==MaxMatchLen"}},
@@ -489,7 +489,7 @@ func (o *c03obs) Finish(ps *PState) bool { return o.cr.blocksMatch > 0 && ps.Par
 func init() {
 	core.Register(&histProp{
 		base: base{id: "C03", level: "exploration",
-			rule: "same history executor as C01; every Parse call is checked with both flag values occurring at every call site (sentinel content is put into the block before each call); non-trivial iff the history has >= 3 Parse calls and a block with a match; distinct = distinct concrete case",
+			rule:        "same history executor as C01; every Parse call is checked with both flag values occurring at every call site (sentinel content is put into the block before each call); non-trivial iff the history has >= 3 Parse calls and a block with a match; distinct = distinct concrete case",
 			assumptions: []string{"n == min(BlockSize, unparsed) is deliberately NOT asserted for a normal Parse (C03 does not state it)"},
 			mandatory:   []string{"quadrant:flags0,seqs", "quadrant:flags0,noseqs", "quadrant:ntl,seqs", "quadrant:ntl,noseqs", "empty_buffer_reports", "unparsed>BlockSize", "unparsed<BlockSize", "second_parse_of_a_fill", "ntl_blocks_with_bytes_offered_again"},
 			expected:    []string{"unparsed==BlockSize"}},
@@ -578,7 +578,7 @@ func (o *c14obs) Finish(ps *PState) bool { return o.nilSeen > 0 && o.cr.blocksMa
 func init() {
 	core.Register(&histProp{
 		base: base{id: "C14", level: "exploration",
-			rule: "parser histories with about 30% Parse(nil) calls interleaved with Parse(&blk), Write, ReadFrom and Shrink for all 7 parsers; the reference expansion receives the skipped bytes verbatim; non-trivial iff the history contains a Parse(nil) and a later block with a match; distinct = distinct concrete case",
+			rule:        "parser histories with about 30% Parse(nil) calls interleaved with Parse(&blk), Write, ReadFrom and Shrink for all 7 parsers; the reference expansion receives the skipped bytes verbatim; non-trivial iff the history contains a Parse(nil) and a later block with a match; distinct = distinct concrete case",
 			assumptions: []string{"matches that reference skipped bytes are counted, not required (the property grants permission only)"},
 			mandatory:   []string{"parse_nil_skips", "parse_nil_empty", "parse_nil_partial_drain", "blocks_after_skip", "matches_referencing_skipped_bytes"},
 		},
